@@ -21,9 +21,13 @@ structure CT where
   hr : Nat := 0
   liveSince : Option Int := none   -- since when (continuously) purchased ∧ unexpired ∧ valid payload ∧ node up
   future : Option (Int × Nat) := none   -- terms waiting for the close (length, speed)
+  -- the node could not read the chain when it handled this contract's last event (a refused eth_call): until the next
+  -- event of the contract or a restart it acts on what it read before — what the chain said then is accepted as well
+  stale : Option (Bool × Int × Int × Option String) := none   -- purchased, startedAt, len, host as last read
 
 structure St where
   now : Int := 0
+  failNext : Bool := false      -- the node refuses the next eth_call
   cs : List CT := []
   minersHr : Nat := 0
   nodeUp : Bool := false
@@ -39,10 +43,10 @@ def upd (st : St) (c : CT) : St := { st with cs := st.cs.map fun x => if x.name 
 /-- recompute `liveSince` after truth changed -/
 def refresh (st : St) : St :=
   { st with cs := st.cs.map fun c =>
-      if live st.now c ∧ st.nodeUp then (match c.liveSince with | some _ => c | none => { c with liveSince := some st.now })
+      if live st.now c ∧ st.nodeUp ∧ c.stale.isNone then (match c.liveSince with | some _ => c | none => { c with liveSince := some st.now })
       else { c with liveSince := none } }
 
-def applyOp (st : St) (op : List String) : St :=
+def applyOpOk (st : St) (op : List String) : St :=
   match op with
   | "world" :: rest => { st with minersHr := parseNat (kvGet rest "miners") * parseNat (kvGet rest "hr") }
   | "chain" :: c :: rest =>
@@ -80,6 +84,35 @@ def applyOp (st : St) (op : List String) : St :=
   | ["advance", s] => refresh { st with now := st.now + parseInt s }
   | _ => st
 
+/-- the contract an event op is about -/
+def subject : List String → Option String
+  | "purchased" :: c :: _ => some c
+  | ["closed", c] => some c
+  | "destupdate" :: c :: _ => some c
+  | "termsupdate" :: c :: _ => some c
+  | _ => none
+
+def applyOp (st : St) (op : List String) : St :=
+  match op with
+  | ["rpcfail", _] => { st with failNext := true }
+  | _ =>
+    let before := st
+    let st1 := applyOpOk { st with failNext := false } op
+    match subject op with
+    | none =>
+      -- a restart reads the chain again: nothing is stale any more
+      (match op with
+       | ["restart"] => { st1 with cs := st1.cs.map fun c => { c with stale := none } }
+       | _ => st1)
+    | some c =>
+      if st.failNext then
+        -- the chain moved, the node did not see it: it may go on as the chain stood before (and it is not held to engage)
+        match before.cs.find? (·.name = c) with
+        | some old => { st1 with cs := st1.cs.map fun x => if x.name = c then
+            { x with stale := some (match old.stale with | some s => s | none => (old.purchased, old.startedAt, old.len, old.host)), liveSince := none } else x }
+        | none => st1
+      else { st1 with cs := st1.cs.map fun x => if x.name = c then { x with stale := none } else x }
+
 def mon (st : St) (op : List String) (outs : List (List String)) : St × List String :=
   let before := st
   let after := applyOp st op
@@ -93,7 +126,10 @@ def mon (st : St) (op : List String) (outs : List (List String)) : St × List St
   let okFor (s : St) (w : String) : Bool :=
     match w.splitOn "@" with
     | [c, h] => match s.cs.find? (·.name = c) with
-      | some ct => ct.purchased && ct.host == some h && decide (s.now ≤ ct.startedAt + ct.len + 1)
+      | some ct => (ct.purchased && ct.host == some h && decide (s.now ≤ ct.startedAt + ct.len + 1)) ||
+          (match ct.stale with
+           | some (p, t0, l, hh) => p && hh == some h && decide (s.now ≤ t0 + l + 1)
+           | none => false)
       | none => false
     | _ => w == "defaultpool"
   let s1 := placements.filterMap fun (m, w) =>
